@@ -75,6 +75,12 @@ theorem values_round_trip (t : CipType) (vs : List Val) (h : ∀ v ∈ vs, wireO
 theorem stored_values_survive (t : Tag) (hwf : t.WF) (hf : t.ty ≠ .real ∧ t.ty ≠ .lreal) : tagWireOk t = true :=
   tagWireOk_of_wf t hwf hf
 
+/-- **the reference encoder emits bytes**: every element of a frame it produces is below 256 (so the
+round trips above are statements about byte strings, not about lists of arbitrary naturals) -/
+theorem encoder_emits_bytes (c : Ref.Ctx) (m : Ref.Msg) (fr : Bytes) (hc : CtxOk c = true)
+    (h : Ref.encMsg c m = some fr) : fr.wf = true :=
+  encMsg_wf c m fr hc h
+
 /-! ## end to end: reference encoder → server → reference decoder -/
 
 /-- **`end_to_end`.**  A Read/Write Tag [Fragmented] request written by the reference encoder — bare in a
